@@ -29,6 +29,9 @@ type Engine struct {
 	pool      *Pool
 	tables    map[*ssa.Global]Value
 	tableSrc  map[string]*tableInfo
+	refPkgs   []*packages.Package
+	refProg   *ssa.Program
+	refSSA    map[string]*ssa.Package
 }
 
 type tableInfo struct {
@@ -65,6 +68,24 @@ func LoadEngine(repo string, workers int) (*Engine, error) {
 	eng.contracts = cf
 	eng.pool = NewPool(workers)
 	eng.collectTables()
+	// the pinned reference copy of strconv (Go 1.23.5), loaded through the same front end
+	refDir := filepath.Join(verifDir(), "ref", "strconv")
+	if _, err := os.Stat(refDir); err == nil {
+		rcfg := &packages.Config{Mode: packages.LoadAllSyntax, Dir: refDir,
+			Env: append(os.Environ(), "GOFLAGS=-mod=mod", "GOPROXY=off", "GOSUMDB=off", "GOTOOLCHAIN=local", "GOWORK=off")}
+		if rp, err := packages.Load(rcfg, "."); err == nil && len(rp) > 0 && len(rp[0].Errors) == 0 {
+			eng.refPkgs = rp
+			rprog, rs := ssautil.AllPackages(rp, ssa.NaiveForm)
+			rprog.Build()
+			eng.refProg = rprog
+			eng.refSSA = map[string]*ssa.Package{}
+			for _, sp := range rs {
+				if sp != nil {
+					eng.refSSA[sp.Pkg.Name()] = sp
+				}
+			}
+		}
+	}
 	return eng, nil
 }
 
@@ -168,6 +189,18 @@ func (eng *Engine) globalValue(ex *Exec, st *State, g *ssa.Global) Value {
 		}
 		return &ArrayV{Arr: TableTerm(key, ArraySort(BV(64), es), vals), Len: at.Len(), ElemT: at.Elem()}
 	}
+	// equivalence proofs: constant tables that were shown (row by row) to equal the reference are
+	// the same uninterpreted symbol on both sides
+	if ex.sharedTables != nil {
+		if v := ex.sharedTable(st, g, t); v != nil {
+			return v
+		}
+	}
+	if stt, ok := t.Underlying().(*types.Struct); ok {
+		if sv := eng.constStructGlobal(g, stt); sv != nil {
+			return sv
+		}
+	}
 	if isErrorType(t) {
 		n := g.Name()
 		if g.Pkg.Pkg.Name() != "rjson" {
@@ -261,4 +294,105 @@ func (ex *Exec) resultEnv(pe *PathEnd, prove bool) *Env {
 	}
 	env.old = &Env{ex: ex, st: ex.entryHeap, vars: oldVars, lets: env.lets}
 	return env
+}
+
+// sharedTable models a package-level constant table as a symbol shared between the repository
+// function and the reference function (only used by the equivalence driver, and only for tables
+// whose row-by-row equality with the reference is itself an obligation of the same check).
+func (ex *Exec) sharedTable(st *State, g *ssa.Global, t types.Type) Value {
+	name := g.Name()
+	if !ex.sharedTables[name] {
+		return nil
+	}
+	var elemSort func(t types.Type) *Sort
+	elemSort = func(t types.Type) *Sort {
+		if at, ok := t.Underlying().(*types.Array); ok {
+			es := elemSort(at.Elem())
+			if es == nil {
+				return nil
+			}
+			return ArraySort(BV(64), es)
+		}
+		return sortOf(t)
+	}
+	switch u := t.Underlying().(type) {
+	case *types.Array:
+		so := elemSort(t)
+		if so == nil {
+			return nil
+		}
+		return &ArrayV{Arr: Var("tbl.shared."+name, so), Len: u.Len(), ElemT: u.Elem()}
+	case *types.Slice:
+		es := sortOf(u.Elem())
+		if es == nil {
+			return nil
+		}
+		n, ok := ex.sharedLens[name]
+		if !ok {
+			return nil
+		}
+		ex.sharedRegMu.Lock()
+		r := ex.sharedRegs[name]
+		if r == nil {
+			r = &Region{ID: -100 - len(ex.sharedRegs), Name: "tbl." + name, Elem: es, Kind: "string"}
+			ex.sharedRegs[name] = r
+		}
+		ex.sharedRegMu.Unlock()
+		st.store[r] = &ArrayV{Arr: Var("tbl.shared."+name+".arr", ArraySort(BV(64), es))}
+		return &SliceV{Reg: r, Off: I64(0), Len: I64(n), Cap: I64(n), ElemT: u.Elem()}
+	}
+	return nil
+}
+
+// constStructGlobal: a package-level struct variable initialised with a composite literal of
+// constants (e.g. strconv's float64info) is given its initial value; that nothing stores into
+// package-level variables is a separate obligation (global store scan).
+func (eng *Engine) constStructGlobal(g *ssa.Global, stt *types.Struct) Value {
+	for _, set := range [][]*packages.Package{eng.pkgs, eng.refPkgs} {
+		for _, p := range set {
+			if p.Types != g.Pkg.Pkg {
+				continue
+			}
+			cl := findVarLit(p, g.Name())
+			if cl == nil {
+				return nil
+			}
+			sv := &StructV{T: stt}
+			for i := 0; i < stt.NumFields(); i++ {
+				sv.Fields = append(sv.Fields, nil)
+			}
+			for i, el := range cl.Elts {
+				idx := i
+				var ve ast.Expr = el
+				if kv, ok := el.(*ast.KeyValueExpr); ok {
+					ve = kv.Value
+					if id, ok := kv.Key.(*ast.Ident); ok {
+						for f := 0; f < stt.NumFields(); f++ {
+							if stt.Field(f).Name() == id.Name {
+								idx = f
+							}
+						}
+					}
+				}
+				tv := p.TypesInfo.Types[ve]
+				so := sortOf(stt.Field(idx).Type())
+				if tv.Value == nil || so == nil || so.Kind != KBV {
+					return nil
+				}
+				iv, _ := new(big.Int).SetString(constant.ToInt(tv.Value).ExactString(), 10)
+				sv.Fields[idx] = BVC(so.W, iv)
+			}
+			for i := range sv.Fields {
+				if sv.Fields[i] == nil {
+					so := sortOf(stt.Field(i).Type())
+					if so == nil || so.Kind != KBV {
+						return nil
+					}
+					sv.Fields[i] = BVI(so.W, 0)
+				}
+			}
+			return sv
+		}
+	}
+	return nil
 }
